@@ -260,7 +260,12 @@ def apply_layout(A: np.ndarray, layout: str) -> np.ndarray:
             big[1::2][:n] = A
             return big[1::2][:n]
         if layout == "neg":
-            return A[::-1].copy()[::-1]
+            # reversed view whose first element is followed, in memory, by sentinels of the
+            # same buffer: a wrapper that ignores strides reads (or writes) sentinels, never
+            # foreign heap memory -> deterministic and memory-safe
+            big = np.full(2 * n + 1, sentinel, dtype=A.dtype)
+            big[:n] = A[::-1]
+            return big[:n][::-1]
     n, m = A.shape
     if layout == "strided":
         big = np.full((2 * n + 1, 2 * m + 1), sentinel, dtype=A.dtype)
@@ -273,7 +278,10 @@ def apply_layout(A: np.ndarray, layout: str) -> np.ndarray:
         v[...] = A
         return v
     if layout == "neg":
-        return A[::-1, ::-1].copy()[::-1, ::-1]
+        big = np.full(2 * n * m + 1, sentinel, dtype=A.dtype)
+        base = big[:n * m].reshape(n, m)
+        base[...] = A[::-1, ::-1]
+        return base[::-1, ::-1]
     raise ValueError(layout)
 
 
